@@ -121,5 +121,9 @@ JdFailed(e) ==
        \cup (IF e.um.ok THEN {} ELSE {"C15.UnmarshalWithImpliedType"})
        \cup (IF e.um.ok /\ ~WellFormed(e.um.val) THEN {"C06.WellFormed"} ELSE {})
        \cup (IF e.rm.ok /\ DocEqKeyOrder(e.rm.doc, e.doc) THEN {} ELSE {"C15.RemarshalSameDocument"})
+       \* the encoding/json integration (SimpleJSONValue) decodes with the implied type and re-encodes the same document
+       \cup (IF ~Has(e, "sj") THEN {}
+             ELSE IF ~e.sj.ok /\ e.sj.fail = "panic" THEN {"C15.NoPanic"}
+             ELSE IF e.sj.ok /\ e.um.ok /\ DocEqKeyOrder(e.sj.doc, e.doc) /\ e.sj.val = e.um.val THEN {} ELSE {"C15.RemarshalSameDocument"})
 JxFailed(e) == IF e.m.ok THEN {"C15.RejectsUnrepresentable"} ELSE IF e.m.fail = "panic" THEN {"C15.NoPanic"} ELSE {}
 =============================================================================
